@@ -490,3 +490,79 @@ func enumConsts(t *types.Named) []*types.Const {
 	}
 	return out
 }
+
+// ResolveUnder resolves an identifier of a local variable to the expression it holds at vertex at, given the vertices
+// reachable under env (seen): its single definition, or — for a variable assigned on several paths — the last assignment that
+// reaches at inside the reachable sub-graph, provided it is unique. Other expressions (and unresolvable identifiers) are
+// returned unchanged.
+func (g *FG) ResolveUnder(env Env, seen map[*GNode]bool, e ast.Expr, at *GNode) ast.Expr {
+	for depth := 0; depth < 4; depth++ {
+		id, ok := unparen(e).(*ast.Ident)
+		if !ok {
+			return e
+		}
+		o, isVar := g.Info.Uses[id].(*types.Var)
+		if !isVar || o.IsField() {
+			return e
+		}
+		if def := g.LocalDef(o); def != nil {
+			e = def
+			continue
+		}
+		body := g.F.Body()
+		if o.Pos() < body.Pos() || o.Pos() > body.End() {
+			return e
+		}
+		env2 := g.withLocals(env)
+		type defn struct {
+			x   *GNode
+			rhs ast.Expr
+		}
+		var defs []defn
+		for x := range seen {
+			switch s := x.N.(type) {
+			case *ast.AssignStmt:
+				if len(s.Lhs) == len(s.Rhs) && (s.Tok == token.ASSIGN || s.Tok == token.DEFINE) {
+					for i, l := range s.Lhs {
+						if objOf(g.Info, l) == o {
+							defs = append(defs, defn{x, s.Rhs[i]})
+						}
+					}
+				}
+			case *ast.ValueSpec:
+				for i, nm := range s.Names {
+					if g.Info.Defs[nm] == o && i < len(s.Values) {
+						defs = append(defs, defn{x, s.Values[i]})
+					}
+				}
+			}
+		}
+		within := func(from *GNode) map[*GNode]bool {
+			r, _ := g.Reach([]*GNode{from}, func(y *GNode) bool { return !seen[y] }, func(ed *GEdge) bool { return !edgeOpen(g.Info, ed, env2) })
+			return r
+		}
+		var last []defn
+		for _, d := range defs {
+			rd := within(d.x)
+			if !rd[at] && d.x != at {
+				continue
+			}
+			shadowed := false
+			for _, d2 := range defs {
+				if d2.x != d.x && rd[d2.x] {
+					if r2 := within(d2.x); r2[at] {
+						shadowed = true
+					}
+				}
+			}
+			if !shadowed {
+				last = append(last, d)
+			}
+		}
+		if len(last) != 1 {
+			return e
+		}
+		e = last[0].rhs
+	}
+	return e
+}
